@@ -113,6 +113,11 @@ func runC01(c *core.Ctx) {
 		}
 		for _, s := range []site{{"abft.Lachesis.applyAtropos", "cheater list", cheaterAppends}, {"abft/election.Election.chooseAtropos", "Atropos choice", chosenReturns}} {
 			f := c.Fn(s.fn)
+			if s.what == "cheater list" {
+				// the list may be built in a helper whose result applyAtropos puts into the block
+				view, _, _ := c03ListBuilder(f)
+				f = view.G
+			}
 			// the loops whose iteration order reaches the result: those around a choice site; if the
 			// choice is made outside every loop, all loops of the function
 			var loops []ast.Stmt
@@ -134,7 +139,7 @@ func runC01(c *core.Ctx) {
 			}
 			for _, l := range loops {
 				ok := false
-				if it, isIt := core.IterationOf(f, l, c01Resolver(f)); isIt && it.FromZero {
+				if it, isIt := c01IterationOf(f, l); isIt && it.FromZero {
 					// over the canonical id slice (ranged, or indexed 0..len-1), or over the validator
 					// indexes 0..Len()-1 (index = position in the canonical order)
 					if it.Coll != nil && isCallTo(f, it.Coll, "inter/pos.Validators.SortedIDs", "inter/pos.Validators.IDs") != nil {
@@ -166,51 +171,67 @@ func runC01(c *core.Ctx) {
 
 	c.Clause("C01.revote", func() {
 		he := c.Fn("abft.Orderer.handleElection")
-		decided := he.CallsTo("abft.Orderer.onFrameDecided")
-		again := he.CallsTo("abft/election.Election.ProcessRoot")
-		boots := he.CallsTo("abft.Orderer.bootstrapElection")
-		c.Need(len(decided) >= 1 && len(again) >= 1, "handleElection casts the live vote (ProcessRoot) and applies a decision (onFrameDecided)")
-		ok := len(boots) > 0
-		var wit []core.Point
-		for _, d := range decided {
-			for _, a := range again {
-				if o, w := he.MustPassBetween(d.Pt, core.Points(boots), a.Pt); !o {
-					ok, wit = false, w
+		// The three steps may be written in handleElection itself or in a helper method one call down
+		// (apply the decision and re-process in one helper, say): the questions are asked from the call
+		// wherever it is made, through the helper's returns back into handleElection, where edges that
+		// contradict what the helper returned on that exit are not taken (c01DeepQuery).
+		isDecide := func(cs *core.CallSite) bool { return cs.Name == "abft.Orderer.onFrameDecided" }
+		isBoot := func(cs *core.CallSite) bool { return cs.Name == "abft.Orderer.bootstrapElection" }
+		isReplay := c01IsReplayCall
+		isVote := func(cs *core.CallSite) bool { return cs.Name == "abft/election.Election.ProcessRoot" }
+		// a decision applied inside the re-processing routine itself is followed by its own replay loop,
+		// which is judged below on bootstrapElection
+		outsideReplay := func(es []c01Effect) []c01Effect {
+			var out []c01Effect
+			for _, e := range es {
+				if e.G == he || !isReplay(e.At) {
+					out = append(out, e)
 				}
 			}
+			return out
 		}
-		c.Check(ok, "known roots are re-processed after a decision before the next root votes", "T3 PostDominates (loop)", decided[0].Pos(), "every path from onFrameDecided back to ProcessRoot passes bootstrapElection()", "after a frame is decided the election can continue with the next root without re-processing the known roots of the new frame (instances that received events in another order decide differently): "+he.DescribePath(wit))
+		decided := outsideReplay(c01Effects(he, isDecide))
+		again := he.SitesMay(isVote, 1)
+		boots := c01Effects(he, isBoot)
+		c.Need(len(decided) >= 1 && len(again) >= 1, "handleElection casts the live vote (ProcessRoot) and applies a decision (onFrameDecided)")
+		ok := len(boots) > 0
+		wit := ""
+		for _, d := range decided {
+			if found, _, w := (c01DeepQuery{Via: isReplay, Tgt: isVote, Track: -1}).from(d); found {
+				ok, wit = false, w
+			}
+		}
+		c.Check(ok, "known roots are re-processed after a decision before the next root votes", "T3 PostDominates (loop)", decided[0].Eff.Pos(), "every path from onFrameDecided back to ProcessRoot passes bootstrapElection()", "after a frame is decided the election can continue with the next root without re-processing the known roots of the new frame (instances that received events in another order decide differently): "+wit)
 		// A decision that seals the epoch resets the election to the new epoch's validators and first
 		// frame. The remaining frame slots of the current root belong to the old epoch: if one of them is
 		// still voted, the new election is fed a root of another epoch. Whether that happens depends on
 		// which root happened to trigger the decision, i.e. on the delivery order. So between a call that
 		// reports 'sealed' and the next live vote, the 'not sealed' edge of that very result must be taken.
-		for _, cs := range he.CallsTo("abft.Orderer.onFrameDecided", "abft.Orderer.bootstrapElection") {
+		nSeal := 0
+		for _, e := range outsideReplay(c01Effects(he, func(cs *core.CallSite) bool { return isDecide(cs) || isBoot(cs) })) {
+			nSeal++
+			cs := e.Eff
 			key := "a sealing decision ends the voting of the current root (" + short(cs.Name) + ")"
-			sv := c01ResultVar(he, cs.Call, 0)
-			if sv == nil {
-				c.Fail(key, "T4 GuardedBy (reaching definition)", cs.Pos(), "the 'sealed' result of "+short(cs.Name)+" is discarded in handleElection: after a decision that seals the epoch the loop goes on feeding the remaining frame slots of the old epoch's root into the new epoch's election (the instance that decided through this root fails or diverges, others do not)")
+			// targets: the next live vote, or a point where the variable holding the result is overwritten
+			// (a test of the variable after that point speaks about another call); a helper hands the
+			// result on as its own result, whose variable in handleElection is then followed
+			found, discarded, w := (c01DeepQuery{Tgt: isVote, Track: 0}).from(e)
+			if discarded {
+				c.Fail(key, "T4 GuardedBy (reaching definition)", cs.Pos(), "the 'sealed' result of "+short(cs.Name)+" is discarded in "+short(e.G.Name)+": after a decision that seals the epoch the loop goes on feeding the remaining frame slots of the old epoch's root into the new epoch's election (the instance that decided through this root fails or diverges, others do not)")
 				continue
 			}
-			// targets: the next live vote, or a point where the result variable is overwritten (a test
-			// of the variable after that point speaks about another call)
-			targets := core.Points(again)
-			for _, a := range assignsToVar(he, sv) {
-				if a.Pt != cs.Pt {
-					targets = append(targets, a.Pt)
-				}
-			}
-			path, found := core.PathQuery{F: he, From: cs.Pt, FromAfter: true, Target: core.PointSet(targets...), AvoidEdge: he.GuardEdges(c01BoolFact(he, sv, false))}.Find()
-			c.Check(!found, key, "T4 GuardedBy (reaching definition)", cs.Pos(), "every path from the call to the next ProcessRoot takes the edge on which its 'sealed' result is false", "after "+short(cs.Name)+" reported that the epoch was sealed the current root can still vote with its remaining frame slots, now in the new epoch's election ("+he.DescribePath(path)+"): the instance that decided through this root fails or diverges, others do not")
+			c.Check(!found, key, "T4 GuardedBy (reaching definition)", cs.Pos(), "every path from the call to the next ProcessRoot takes the edge on which its 'sealed' result is false", "after "+short(cs.Name)+" reported that the epoch was sealed the current root can still vote with its remaining frame slots, now in the new epoch's election ("+w+"): the instance that decided through this root fails or diverges, others do not")
 		}
+		c.ExpectAtLeast("calls in handleElection that can seal the epoch", nSeal, 2)
 		bs := c.Fn("abft.Orderer.Bootstrap")
-		bb := bs.CallsTo("abft.Orderer.bootstrapElection")
+		// (the call itself, or a helper of Bootstrap that always makes it)
+		bb := bs.SitesMust(isBoot, 2)
 		okB := len(bb) >= 1
 		for _, rp := range bs.ReturnPoints() {
 			// only the final return (after election.New) matters: returns reachable from election.New
 			news := bs.CallsTo("abft/election.New")
-			if len(news) == 1 && bs.CanReach(news[0].Pt, rp) {
-				if o, _ := bs.MustPassBetween(news[0].Pt, core.Points(bb), rp); !o {
+			if len(news) == 1 && bs.CanReach(news[0].Pt, rp) && !core.PointSet(bb...)(rp) {
+				if o, _ := bs.MustPassBetween(news[0].Pt, bb, rp); !o {
 					okB = false
 				}
 			}
@@ -233,19 +254,44 @@ func runC01(c *core.Ctx) {
 		dvar := varOf(be, dv)
 		// 'not sealed, no error' is returned only when nothing more was decided
 		okStop := true
-		n := 0
 		for _, rp := range be.ReturnPoints() {
 			r := rp.Node().(*ast.ReturnStmt)
 			if len(r.Results) == 2 && isIdentNamed(r.Results[0], "false") && core.IsNil(be.Info(), r.Results[1]) {
-				n++
 				if o, _ := be.GuardedBy(rp, varNilFact(be, dvar, true)); !o {
 					okStop = false
 				}
 			}
 		}
-		c.Check(okStop && n >= 1, "re-processing stops only when no further frame is decided", "T4 GuardedBy", be.Pos(), "(false, nil) is returned only on the decided == nil edge", "bootstrapElection can stop although a further frame was decided")
-		// a decision is applied before looping on
+		// the same, independent of how the results are written (literal returns, or one exit returning
+		// accumulated results): after processKnownRoots the routine is left, without applying a decision,
+		// only over an edge that says "nothing decided" or "error"; and after a decision was applied it is
+		// left, without re-processing again, only over an edge that says "sealed" or "error"
 		od := be.CallsTo("abft.Orderer.onFrameDecided")
+		whyStop := ""
+		union := func(ms ...func(core.Fact) bool) func(core.Fact) bool {
+			return func(ft core.Fact) bool {
+				for _, m := range ms {
+					if m(ft) {
+						return true
+					}
+				}
+				return false
+			}
+		}
+		pkErr := c01ResultVar(be, pk[0].Call, 1)
+		if path, found := (core.PathQuery{F: be, From: pk[0].Pt, FromAfter: true, Avoid: core.PointSet(core.Points(od)...), TargetExit: true,
+			AvoidEdge: be.GuardEdges(union(varNilFact(be, dvar, true), varNilFact(be, pkErr, false)))}).Find(); found {
+			okStop, whyStop = false, " ("+be.DescribePath(path)+")"
+		}
+		for _, d := range od {
+			sealedV, errV := c01ResultVar(be, d.Call, 0), c01ResultVar(be, d.Call, 1)
+			if path, found := (core.PathQuery{F: be, From: d.Pt, FromAfter: true, Avoid: core.PointSet(pk[0].Pt), TargetExit: true,
+				AvoidEdge: be.GuardEdges(union(c01BoolFact(be, sealedV, true), varNilFact(be, errV, false)))}).Find(); found {
+				okStop, whyStop = false, ": after a decision that does not seal the epoch the known roots are not re-processed again ("+be.DescribePath(path)+")"
+			}
+		}
+		c.Check(okStop, "re-processing stops only when no further frame is decided", "T4 GuardedBy", be.Pos(), "bootstrapElection is left only on the decided == nil edge, a sealing decision or an error; (false, nil) is returned only on the decided == nil edge", "bootstrapElection can stop although a further frame was decided"+whyStop)
+		// a decision is applied before looping on
 		okA := len(od) == 1
 		if okA {
 			okA, _ = be.GuardedBy(od[0].Pt, varNilFact(be, dvar, false))
